@@ -244,6 +244,19 @@ def shape_models():
             h.n("Mul", ["k", "d"], "y")
             h.out("y")
             out.append(h.build())
+    # a constant index that is out of range for the shape value: the model fails at run time whatever the input, but it is a
+    # valid model and the optimizer has to return (leaving the node alone)
+    for idx in ([3], [-4], [1, 5]):
+        h = H(f"Gather(Shape(x), {idx}) index out of range x=[2, 4, 3]")
+        h.inp("x", F, (2, 4, 3))
+        h.inp("k", I64, (len(idx),))
+        h.n("Shape", ["x"], "s")
+        h.c("i", np.array(idx, dtype=np.int64))
+        h.n("Gather", ["s", "i"], "d", axis=0)
+        h.n("Mul", ["d", "k"], "y")
+        h.out_types = {"y": (I64, [len(idx)])}
+        h.out("y")
+        out.append(h.build())
     # arithmetic on shape values: Abs may be dropped only where the value is known to be non-negative
     for xs in [(2, 4), (3,)]:
         for delta, opn in ((-3, "Add"), (3, "Sub"), (1, "Add"), (-1, "Mul")):
@@ -374,6 +387,13 @@ def main(tier: str, only=None) -> int:
                                                "model": r_["model"], "problem": "declared input types changed", "detail": r_["input_signature_changed"]})
             run.violation(path, f"{r_['model']}: optimize() changed the declared graph inputs: {r_['input_signature_changed'][:260]}")
     n_exc = sum(1 for r_ in results for rec in r_["records"] if rec["verdict"] == "exception")
+    for r_ in results:
+        for rec in r_["records"]:
+            if rec["verdict"] == "exception":
+                # optimize() has to return on every valid model (C04's clause, met here on a symbolically declared model)
+                path = common.write_replay("C09", {"engine": "S", "harness": f"c09.{r_['model']}.exception", "rebuild": {"kind": "side", "transformation": "optimize(proto)"},
+                                                   "model": r_["model"], "problem": "optimize() raised", "detail": rec.get("detail")})
+                run.violation(path, f"{r_['model']}: optimize() raised on a valid model: {str(rec.get('detail'))[:200]}")
     both_fail = sum(1 for r_ in results for rec in r_["records"] if rec.get("both_fail"))
     run.coverage.update({
         "programs": len(results), "disagreements_checked": counts.get("cex", 0),
